@@ -30,7 +30,7 @@ def sources(tier):
     S += [g for g in U.CRG_reps(3) if len(g.atoms) == 3 and g.bonds][::6]
     S += list(U.stars(5))[::9]
     S += list(U.two_unit())[::6]
-    S += list(U.scrg_universe("quick"))[238::(3 if tier == "quick" else 1)]
+    S += [g for g in U.scrg_universe("quick") if g.astereo or g.bstereo or g.achg or g.bchg][::(3 if tier == "quick" else 1)]
     S += [U.to_kind(g, SCRG) for g in U.two_unit()][::16]
     out = []
     for g in S:
